@@ -207,6 +207,28 @@ def run(tier):
 
     with ThreadPoolExecutor(max_workers=16) as ex:
         records = list(ex.map(do, plan))
+    # ---- standard output on a full device: every write fails with ENOSPC (also reaches the stdio paths of -l/-d/-s/-x,
+    #      whose write() calls inside glibc the preload shim cannot intercept) ------------------------------------
+    ximg = work + "/refx.sqfs"
+    open(work + "/refx_pack.txt", "w").write("file /big 0644 0 0 %s\ndir /d 0755 0 0\nslink /d/l 0777 0 0 big\n" % (scen[1].dir + "/pack.txt"))
+    open(work + "/refx_xattr.txt", "w").write("# file: big\nuser.a=0x3132\n")
+    rc, o, e = sh([tools + "/gensquashfs", "-q", "-f", "-F", work + "/refx_pack.txt", "-A", work + "/refx_xattr.txt", ximg], timeout=60)
+    if rc:
+        raise RuntimeError("cannot build the xattr reference image: %s" % e[-200:])
+    devfull = [("rdsquashfs-list", ["rdsquashfs", "-l", "/", ximg]), ("rdsquashfs-describe", ["rdsquashfs", "-d", ximg]),
+               ("rdsquashfs-stat", ["rdsquashfs", "-s", "big", ximg]), ("rdsquashfs-xattr", ["rdsquashfs", "-x", "big", ximg]),
+               ("rdsquashfs-cat", ["rdsquashfs", "-c", "big", ximg]), ("sqfs2tar", ["sqfs2tar", ximg]), ("sqfs2tar-gzip", ["sqfs2tar", "-c", "gzip", ximg])]
+
+    def run_devfull(name, cmd):
+        try:
+            with open("/dev/full", "wb") as full:
+                p = subprocess.run([tools + "/" + cmd[0]] + cmd[1:], stdout=full, stderr=subprocess.PIPE, stdin=subprocess.DEVNULL, timeout=30)
+            rc, err, to = p.returncode, p.stderr, False
+        except subprocess.TimeoutExpired:
+            rc, err, to = 124, b"", True
+        return {"tool": name + "@stdout=/dev/full", "class": "write", "kind": "ERR", "k": 0, "errno": 28, "packer": False, "exit": rc if rc >= 0 else 128 - rc,
+                "signal": rc < 0, "timeout": to, "diag": bool(err.strip()), "outExists": False, "outSame": False, "devfull": [name, cmd]}
+    records += [run_devfull(n, c) for n, c in devfull]
     # ---- TLC judges every record --------------------------------------------------------------------
     tr = work + "/runs.ndjson"
     with open(tr, "w") as f:
@@ -246,10 +268,13 @@ def run(tier):
     for key, xs in sorted(classes.items()):
         x = xs[0]
         # reproduce once
-        c = [c for c in cases if c.name == x["tool"]][0]
-        again = do((c, {v: k for k, v in CLASSNAME.items()}[x["class"]], x["kind"], x["errno"], x["k"]))
+        if "devfull" in x:
+            again = run_devfull(*x["devfull"])
+        else:
+            c = [c for c in cases if c.name == x["tool"]][0]
+            again = do((c, {v: k for k, v in CLASSNAME.items()}[x["class"]], x["kind"], x["errno"], x["k"]))
         if (again["exit"], again["outExists"], again["outSame"], again["signal"]) == (x["exit"], x["outExists"], x["outSame"], x["signal"]):
-            rep.violation(key, "%s: %s fault (%s) at call %d of that class -> exit %d, output %s, diagnostic %s (%d such positions: %s)"
+            rep.violation(key, "%s: %s fault (%s) at call %d of that class (0 = every call) -> exit %d, output %s, diagnostic %s (%d such positions: %s)"
                           % (x["tool"], x["class"], x["kind"], x["k"], x["exit"],
                              "left behind" if x["outExists"] else ("identical" if x["outSame"] else "different/absent"),
                              "yes" if x["diag"] else "none", len(xs), [y["k"] for y in xs][:12]),
